@@ -24,6 +24,10 @@ use std::collections::{BTreeMap, BTreeSet};
 pub struct Case {
   pub build: BuildCase,
   pub walk_roots: Vec<u16>,
+  /// graph truth only: a graph of generated registry packages on which fast
+  /// check has run, with a missing module behind an implementation-only import
+  #[serde(default)]
+  pub fc: Option<crate::props::c09::Case>,
 }
 
 pub fn spec() -> PropSpec<Case> {
@@ -40,16 +44,24 @@ pub fn spec() -> PropSpec<Case> {
       (
         build_case_strategy(p),
         proptest::collection::vec(any::<u16>(), 1..=2),
+        proptest::option::weighted(0.1, crate::props::c09::case_strategy(tier)),
       )
-        .prop_map(|(mut build, walk_roots)| {
+        .prop_map(|(mut build, walk_roots, fc)| {
           crate::world::break_redirect_cycles(&mut build.world);
-          Case { build, walk_roots }
+          Case {
+            build,
+            walk_roots,
+            fc: fc.map(|mut f| {
+              f.impl_import_missing = true;
+              f
+            }),
+          }
         })
         .boxed()
     },
     check,
     cases: |tier| tier.pick(30_000, 600_000),
-    rule: "generated worlds in which failures occur at every kind of position: missing targets, loader errors, unparsable text, unsupported media types, failed resolutions (bare specifiers), invalid attribute types, https->http imports, remote modules importing file:// literals - behind static, dynamic, code and type edges and redirects; non-trivial = the world has at least one failure reachable from the roots along some edge class AND the verdicts of code validation with and without dynamic edges, or of the full walk, are not all equal (both 'must fail' and 'must not fail' occur in the case); distinct = distinct case JSON",
+    rule: "generated worlds in which failures occur at every kind of position: missing targets, loader errors, unparsable text, unsupported media types, failed resolutions (bare specifiers), invalid attribute types, https->http imports, remote modules importing file:// literals - behind static, dynamic, code and type edges and redirects; a tenth of the cases check the graph-truth clause on graphs of generated registry packages with fast-check modules and a missing module behind an implementation-only import; non-trivial = the world has at least one failure reachable from the roots along some edge class AND the verdicts of code validation with and without dynamic edges, or of the full walk, are not all equal (both 'must fail' and 'must not fail' occur in the case); distinct = distinct case JSON",
     assumptions: &[
       "world truth uses the dependencies the sources declare (engine/src/refmodel.rs) and the entry states of the graph (validated against the world by C01)",
       "graph truth reuses the reference walk of C15 for all 36 option sets",
@@ -188,6 +200,17 @@ fn err_specifier(e: &ModuleGraphError) -> String {
 pub fn check(case: &Case, _tier: Tier) -> Outcome {
   let mut o = Outcome::default();
   let b = &case.build;
+  if let Some(fc) = &case.fc {
+    // graph truth over a graph with fast-check dependency maps: a failure
+    // behind an edge that fast check pruned is not an edge of a walk that
+    // prefers the fast-check graph
+    let p = crate::props::c09::prepare(fc, None);
+    crate::props::c15::check_graph(&p.graph, &case.walk_roots, &[], &mut o, "C02");
+    o.label("graph-with-fast-check-modules");
+    o.nontrivial = p.graph.module_errors().next().is_some()
+      && p.graph.modules().any(|m| m.js().map(|j| j.fast_check_module().is_some()).unwrap_or(false));
+    return o;
+  }
   let (graph, _) = build_simple(&b.world, &b.roots, &b.imports, &b.opts);
   let multi = obs::context_sensitive_multi_path(&b.world).is_some();
 
